@@ -28,6 +28,9 @@ def run(ctx):
     # capacity is enforced inside the add both operations go through (C03.R1 on _self_add)
     from .c03 import capacity_gates
     capacity_gates(ctx, 'C11.R1', only=('_self_add',))
+    # that gate compares the stored volume: every writer of contents keeps it current
+    from .c10 import pairing as _pairing
+    _pairing(ctx, 'C11.R1')
     from . import unitspec as _us
     _us.api_verified(ctx, 'C11.R5')
     for name in ('dilute', 'fill_to'):
